@@ -5,20 +5,27 @@ use crate::runtime::RunState;
 use crate::symbol::Span;
 use crate::{dprintln, AsmParser};
 
-pub fn eval(state: &mut RunState, line: &str) {
+/// `orig` is needed to know which statement of the program the PC is at: label operands are
+/// PC-relative, and must denote the address of the label wherever the PC currently is.
+pub fn eval(state: &mut RunState, orig: u16, line: &str) {
     // Required to make temporarily 'static
     // SAFETY: `line` is not used after being dropped (i.e. not returned or used in a greater
     // scope)
     let line_static = unsafe { &*(line as *const str) };
-    if let Err(err) = eval_inner(state, line_static) {
+    if let Err(err) = eval_inner(state, orig, line_static) {
         eprintln!("{:?}", err);
     }
 }
 
 /// Wrapper to group errors into one location
-fn eval_inner(state: &mut RunState, line: &'static str) -> Result<()> {
-    // Parse
-    let stmt = AsmParser::new_simple(line)?.parse_simple()?;
+fn eval_inner(state: &mut RunState, orig: u16, line: &'static str) -> Result<()> {
+    // Index of the statement at PC (may be meaningless if PC is outside of the program)
+    let index = state.pc().wrapping_sub(orig);
+
+    // Parse, as the statement at PC
+    let stmt = AsmParser::new_simple(line)?
+        .at_line(index.wrapping_add(1))
+        .parse_simple()?;
 
     match stmt {
         // Don't allow any branch instructions
@@ -81,7 +88,9 @@ fn eval_inner(state: &mut RunState, line: &'static str) -> Result<()> {
     }
 
     // Check labels
-    let mut asm = AsmLine::new(0, stmt, Span::dummy());
+    // PC is not incremented before the instruction is executed (unlike in the run loop), so
+    // offsets are relative to the statement *before* the one at PC
+    let mut asm = AsmLine::new(index, stmt, Span::dummy());
     asm.backpatch()?;
 
     // Compile and execute
